@@ -25,7 +25,7 @@ func init() {
 		Level: "exploration",
 		Rule: "case = one (policy,value type) pair x one PRNG chain of blocks (0..6 host-call ops each, ordinals 0..5 repeated / non-monotonic, delete_prefix mixed in) executed on a real FullKV and on a real PartialKV through wasm.Call.Do*; " +
 			"after every Flush every key of the key space (plus an unused key) is read at every ordinal 0..max+1 with get_first/get_last/get_at/has_first/has_last/has_at through wasm.Call.DoGet*/DoHas* and compared with the model; deltas are replayed on the pre-block content. " +
-			"end-to-end part (the last cases: quick 40, thorough 4 000): generated packages in which 60 % of the modules (stores included) carry a block filter, so that stores are skipped on many blocks, or have all their inputs skipped, or are replayed from cached outputs; one development-mode and one production-mode request; every get_first / get_last / get_at / has_* a module performs through the host interface (recorded by the native runtime) must return what the same call returns in the sequential reference - in particular a store that did not run on a block shows no writes of an earlier block at any ordinal. " +
+			"end-to-end part (the last cases: quick 160, thorough 12 000): generated packages in which 60 % of the modules (stores included) carry a block filter, so that stores are skipped on many blocks, or have all their inputs skipped, or are replayed from cached outputs; one development-mode and one production-mode request; every get_first / get_last / get_at / has_* a module performs through the host interface (recorded by the native runtime) must return what the same call returns in the sequential reference - in particular a store that did not run on a block shows no writes of an earlier block at any ordinal. " +
 			"non-trivial = block with >=2 ops on one key at different ordinals or a delete_prefix hitting a live key; distinct by hash of (pair, pre-state, ops)",
 		Assumptions: []string{
 			"the store model (harness/model/store.go) is the statement of ordinal semantics: stable sort by ordinal, get_at(ord) = value after all ops with ordinal <= ord",
@@ -55,14 +55,15 @@ func c08StoreCases(tier string) int {
 
 func c08E2ECases(tier string) int {
 	if tier == "thorough" {
-		return 4000
+		return 12000
 	}
-	return 40
+	return 160
 }
 
 // runC08E2E: ordinal reads as modules perform them inside the real pipeline, with stores that often do NOT run on a block.
 func runC08E2E(c *fw.Case) {
-	s := newScen(c, gen.PkgOpts{MaxMods: 7, FilterProb: 0.6, IndexProb: 0.25})
+	// half of the packages: every store uses delete_prefix on one tag (segments in which a store only deletes do occur)
+	s := newScen(c, gen.PkgOpts{MaxMods: 7, FilterProb: 0.6, IndexProb: 0.25, ForceDelete: c.Index%2 == 0, MaxSeg: []int{0, 3, 4}[c.Index%3]})
 	defer s.close()
 	outs := s.outputs()
 	if c.Violated() || len(outs) == 0 {
@@ -273,6 +274,43 @@ func runC08(c *fw.Case) {
 		}
 		if c.WantSample() {
 			c.Sample(map[string]any{"pair": p.String(), "store": target.name, "blocks": gen.DescribeBlocks(p, history)})
+		}
+	}
+	// ---- reads right after a merge: the full store stands between two blocks, it has no intra-block history, so every
+	// ordinal read of a key must return its current value (a squashed store is handed to the linear pipeline in this state and
+	// is read before - or without - being written)
+	for round := 0; round < 2; round++ {
+		seg := cfg.NewPartialKV(1000+uint64(round)*10, zap.NewNop())
+		var ops []model.Op
+		if round == 0 || c.R.Intn(2) == 0 { // a segment that only deletes
+			ops = []model.Op{{Ord: uint64(c.R.Intn(4)), Delete: true, Key: gen.Prefixes[c.R.Intn(len(gen.Prefixes))]}}
+		} else {
+			ops = g.Block(6)
+		}
+		if err := rs.RunBlock(p, seg, 1000+uint64(round)*10, ops); err != nil {
+			return
+		}
+		seg.Reset()
+		loaded, err := rs.SaveLoadPartial(context.Background(), cfg, seg, 1010+uint64(round)*10)
+		if err != nil {
+			return
+		}
+		before := rawContent(full)
+		if err := full.Merge(loaded); err != nil {
+			c.Violation("C08/after-merge/merge-error/"+p.String(), "merge failed: "+err.Error(), map[string]any{"segment_ops": gen.DescribeOps(p, ops)})
+			return
+		}
+		c.Count("merges_followed_by_reads", 1)
+		for _, k := range gen.Keys {
+			last, fl := full.GetLast(k)
+			first, ff := full.GetFirst(k)
+			at, fa := full.GetAt(uint64(c.R.Intn(6)), k)
+			if ff != fl || fa != fl || !bytes.Equal(first, last) || !bytes.Equal(at, last) || full.HasFirst(k) != fl || full.HasLast(k) != fl {
+				_, was := before[k]
+				c.Violation("C08/after-merge/reads-disagree/"+p.Policy, fmt.Sprintf("right after merging a segment (no operation of the next block yet) key %q reads get_first=%q,%v get_at=%q,%v get_last=%q,%v (key present before the merge: %v)", k, first, ff, at, fa, last, fl, was),
+					map[string]any{"pair": p.String(), "segment_ops": gen.DescribeOps(p, ops)})
+				return
+			}
 		}
 	}
 	c.Distinct("pairs", p.String())
